@@ -231,6 +231,8 @@ mod num_threads;
 mod par;
 mod par_iter;
 mod params;
+#[cfg(orx_parallel_verif)]
+pub mod verif;
 /// Common structs, enums and traits.
 pub mod prelude;
 
